@@ -6,7 +6,7 @@
 
 use std::sync::{Arc, Mutex};
 
-use hickory_proto::dnssec::rdata::{DNSSECRData, DNSKEY, DS, NSEC, NSEC3, RRSIG};
+use hickory_proto::dnssec::rdata::{DNSSECRData, DS, NSEC, NSEC3, RRSIG};
 use hickory_proto::dnssec::{Algorithm, DigestType, Nsec3HashAlgorithm};
 use hickory_proto::op::{Message, Query, ResponseCode};
 use hickory_proto::rr::rdata::{A, AAAA, NS, SOA, TXT};
@@ -109,6 +109,9 @@ pub enum Move {
     Rcode(u8),
     /// answer emptied, rcode NOERROR, authority := one record R (+ its RRSIGs)
     Denial { rtype: RecordType, owner: OwnerSel, signed: Signedness },
+    /// answer emptied, rcode NXDOMAIN, authority := the zone's genuine SOA with its RRSIGs plus a
+    /// forged, unsigned NSEC at the apex that spans the whole zone (apex -> apex)
+    ForgedApexNsecWithGenuineSoa,
 }
 
 #[derive(Clone, Debug, PartialEq, Eq, Hash, PartialOrd, Ord)]
@@ -145,6 +148,54 @@ impl Fault {
                 Move::StripBoth => "strip-answer+authority".into(),
                 Move::Rcode(c) => format!("rcode:={c}"),
                 Move::Denial { rtype, owner, signed } => format!("replace-by-denial({rtype},{owner:?},{signed:?})"),
+                Move::ForgedApexNsecWithGenuineSoa => "replace-by-forged-apex-nsec+genuine-soa".into(),
+            },
+        }
+    }
+    pub fn uses_ancestor_key(&self) -> bool {
+        matches!(
+            self,
+            Fault::Rec { kind: RecFault::Resign(KeyChoice::AncestorZone), .. }
+                | Fault::Resp { mv: Move::ForgeSignedBy(KeyChoice::AncestorZone) | Move::ForgeUnsupportedDs(Some(KeyChoice::AncestorZone)), .. }
+        )
+    }
+    /// coarse class used in violation keys: what kind of attacker action, without the details
+    /// that do not matter for the mechanism
+    pub fn class_tag(&self) -> String {
+        fn kc(k: &KeyChoice) -> &'static str {
+            match k {
+                KeyChoice::SiblingZone | KeyChoice::ChildZone => "key-of-another-secure-zone",
+                KeyChoice::AncestorZone => "ancestor-key",
+                KeyChoice::AttackerSameZone => "injected-key",
+                KeyChoice::AttackerOwnZone | KeyChoice::InsecureZone => "key-of-insecure-or-nonexistent-zone",
+            }
+        }
+        match self {
+            Fault::Rec { kind, .. } => match kind {
+                RecFault::RaiseTtl => "raise-ttl".into(),
+                RecFault::Resign(k) => format!("resign({})", kc(k)),
+                _ => "edit-record".into(),
+            },
+            Fault::Resp { mv, .. } => match mv {
+                Move::ForgeUnsigned => "forge-unsigned".into(),
+                Move::ForgeSignedBy(k) => format!("forge-signed({})", kc(k)),
+                Move::ForgeUnsupportedDs(None) => "forge-unsupported-ds(unsigned)".into(),
+                Move::ForgeUnsupportedDs(Some(k)) => format!("forge-unsupported-ds({})", kc(k)),
+                Move::StripAnswer | Move::StripAuthority | Move::StripBoth => "strip-section".into(),
+                Move::Rcode(_) => "swap-rcode".into(),
+                Move::Denial { rtype, owner, signed } => {
+                    if *owner == OwnerSel::InsecureName {
+                        // whatever its type or signature: a record that belongs to an insecure zone
+                        return "inject-record-of-insecure-zone".into();
+                    }
+                    let tc = match rtype {
+                        RecordType::NSEC | RecordType::NSEC3 => "NSEC*",
+                        RecordType::DS | RecordType::DNSKEY => "DS/DNSKEY",
+                        _ => "SOA/NS/A",
+                    };
+                    format!("inject({tc},{signed:?})")
+                }
+                Move::ForgedApexNsecWithGenuineSoa => "forged-apex-nsec+genuine-soa".into(),
             },
         }
     }
@@ -197,6 +248,8 @@ impl Fault {
             Move::StripBoth
         } else if mv.starts_with("rcode") {
             Move::Rcode(v["rcode"].as_u64()? as u8)
+        } else if mv == "replace-by-forged-apex-nsec+genuine-soa" {
+            Move::ForgedApexNsecWithGenuineSoa
         } else {
             let owner = OWNER_SELS.into_iter().find(|o| format!("{o:?}") == v["owner"].as_str().unwrap_or(""))?;
             let signed = SIGNEDNESS.into_iter().find(|o| format!("{o:?}") == v["signed"].as_str().unwrap_or(""))?;
@@ -223,8 +276,8 @@ fn attacker_key(choice: KeyChoice, signer: &Name) -> ZoneKey {
 }
 
 fn sign_with(records: &[Record], key: &ZoneKey) -> Record {
-    let sk = key.mat.signing_key();
-    sign::sign_rrset(records, key, &*sk, &window())
+    let sk = key.mat.shared();
+    sign::sign_rrset(records, key, &**sk, &window())
 }
 
 /// (signer zone key, DNSKEY injection to register) for signing a record owned by `owner`
@@ -301,7 +354,7 @@ fn marker_rdata(t: RecordType, owner: &Name, hier: &Hier) -> RData {
         }
         RecordType::DNSKEY => RData::DNSSEC(DNSSECRData::DNSKEY(attacker_key(KeyChoice::AttackerSameZone, owner).dnskey())),
         RecordType::NSEC => {
-            let next = Name::from_ascii("\\000").unwrap().append_domain(owner).unwrap_or_else(|_| owner.clone());
+            let next = Name::from_labels(vec![&[0u8][..]]).unwrap().append_domain(owner).unwrap_or_else(|_| owner.clone());
             RData::DNSSEC(DNSSECRData::NSEC(NSEC::new(next, [RecordType::A, RecordType::RRSIG, RecordType::NSEC])))
         }
         RecordType::NSEC3 => RData::DNSSEC(DNSSECRData::NSEC3(NSEC3::new(Nsec3HashAlgorithm::SHA1, true, 1, vec![0xab], vec![0xff; 20], [RecordType::A]))),
@@ -440,6 +493,30 @@ impl Script {
             }
             Move::Rcode(c) => {
                 m.metadata.response_code = ResponseCode::from(0, *c);
+                true
+            }
+            Move::ForgedApexNsecWithGenuineSoa => {
+                let Some(zi) = self.hier.h.zone_for(&q.name, q.query_type) else { return false };
+                let z = &self.hier.h.zones[zi];
+                if !z.signed() {
+                    return false;
+                }
+                let apex = z.origin.clone();
+                let mut recs: Vec<Record> = z.published.iter().filter(|r| r.name == apex && (r.record_type() == RecordType::SOA || is_rrsig_covering(r, &apex, RecordType::SOA))).cloned().collect();
+                if recs.is_empty() {
+                    return false;
+                }
+                recs.push(Record::from_rdata(
+                    apex.clone(),
+                    300,
+                    RData::DNSSEC(DNSSECRData::NSEC(NSEC::new(apex.clone(), [RecordType::NS, RecordType::SOA, RecordType::RRSIG, RecordType::NSEC, RecordType::DNSKEY]))),
+                ));
+                if !dry {
+                    m.answers.clear();
+                    m.additionals.clear();
+                    m.authorities = recs;
+                    m.metadata.response_code = ResponseCode::NXDomain;
+                }
                 true
             }
             Move::Denial { rtype, owner, signed } => {
@@ -634,7 +711,7 @@ pub fn singles_at(script_probe: &Script, q: &Query, honest: &Message) -> Vec<Fau
             }
         }
     }
-    let mut moves = vec![Move::ForgeUnsigned, Move::ForgeUnsupportedDs(None), Move::StripAnswer, Move::StripAuthority, Move::StripBoth, Move::Rcode(0), Move::Rcode(2), Move::Rcode(3)];
+    let mut moves = vec![Move::ForgedApexNsecWithGenuineSoa, Move::ForgeUnsigned, Move::ForgeUnsupportedDs(None), Move::StripAnswer, Move::StripAuthority, Move::StripBoth, Move::Rcode(0), Move::Rcode(2), Move::Rcode(3)];
     for c in KEY_CHOICES {
         moves.push(Move::ForgeSignedBy(c));
         moves.push(Move::ForgeUnsupportedDs(Some(c)));
